@@ -51,6 +51,70 @@ fn fmt_shm(r: Result<(libc::timespec, libc::timespec, ClockStatus), ShmError>) -
     }
 }
 
+fn ensure_client(ctx: &mut Ctx, ceb: &ClockErrorBound) {
+    if ctx.client.is_none() {
+        let path = scratch_dir().join("client-segment");
+        let _ = std::fs::remove_file(&path);
+        let mut writer = ShmWriter::new(&path).expect("ShmWriter::new");
+        writer.write(&ceb);
+        let map = RawMap::open(&path, 72);
+        let client = ClockBoundClient::new_with_path(path.to_str().unwrap()).expect("client");
+        ctx.client = Some(ClientCtx { _writer: writer, map, client, gen: 2 });
+    }
+}
+
+fn fmt_client(r2: std::thread::Result<Result<clock_bound_client::ClockBoundNowResult, clock_bound_client::ClockBoundError>>) -> String {
+    match r2 {
+        Ok(Ok(n)) => {
+            let e: libc::timespec = *n.earliest.as_ref();
+            let l: libc::timespec = *n.latest.as_ref();
+            format!("ok {} {} {} {} {}", e.tv_sec, e.tv_nsec, l.tv_sec, l.tv_nsec, code_of(n.clock_status))
+        }
+        Ok(Err(e)) => match e.kind {
+            ClockBoundErrorKind::SegmentMalformed => "err malformed".into(),
+            ClockBoundErrorKind::CausalityBreach => "err causality".into(),
+            ClockBoundErrorKind::SegmentNotInitialized => "err notinit".into(),
+            ClockBoundErrorKind::Syscall => format!("err syscall {} {:?}", e.errno.0, e.detail),
+        },
+        Err(_) => "panic".to_string(),
+    }
+}
+
+/// cbp <old record 7> <new record 7> real_s real_n mono_s mono_n : the segment holds the old record; while
+/// the call reads its first clock the daemon publishes the new one. The call took its snapshot before it
+/// read the clocks, so it answers from the old record. -> result as for cba
+pub fn run_cbp(ctx: &mut Ctx, toks: &[&str]) -> String {
+    let t: Vec<i64> = toks.iter().map(|s| p::<i64>(s)).collect();
+    let (old, new) = (mk_ceb(&t[0..7]), mk_ceb(&t[7..14]));
+    vclock::set_real(t[14], t[15]);
+    vclock::set_mono(t[16], t[17]);
+    ensure_client(ctx, &old);
+    let c = ctx.client.as_mut().unwrap();
+    unsafe { (c.map.base.add(OFF_RECORD) as *mut ClockErrorBound).write_volatile(old) };
+    c.gen = if c.gen >= 65000 { 2 } else { c.gen + 2 };
+    c.map.set_u16(OFF_GENERATION, c.gen);
+    let g_new = if c.gen >= 65000 { 2 } else { c.gen + 2 };
+    c.gen = g_new;
+    let base = c.map.base as usize;
+    let done = std::sync::Arc::new(std::sync::atomic::AtomicBool::new(false));
+    let d2 = done.clone();
+    vclock::set_hook(Some(Box::new(move |_clk| {
+        if !d2.swap(true, std::sync::atomic::Ordering::SeqCst) {
+            unsafe {
+                ((base + OFF_GENERATION) as *mut u16).write_volatile(g_new.wrapping_sub(1));
+                ((base + OFF_RECORD) as *mut ClockErrorBound).write_volatile(new);
+                ((base + OFF_GENERATION) as *mut u16).write_volatile(g_new);
+            }
+        }
+    })));
+    vclock::enable(true);
+    let client = &mut c.client;
+    let r = std::panic::catch_unwind(std::panic::AssertUnwindSafe(|| client.now()));
+    vclock::enable(false);
+    vclock::set_hook(None);
+    fmt_client(r)
+}
+
 pub fn run(ctx: &mut Ctx, toks: &[&str]) -> String {
     let t: Vec<i64> = toks.iter().map(|s| p::<i64>(s)).collect();
     let ceb = mk_ceb(&t[0..7]);
@@ -67,15 +131,7 @@ pub fn run(ctx: &mut Ctx, toks: &[&str]) -> String {
     };
 
     // 2. the Rust client library on a real segment holding the same record
-    if ctx.client.is_none() {
-        let path = scratch_dir().join("client-segment");
-        let _ = std::fs::remove_file(&path);
-        let mut writer = ShmWriter::new(&path).expect("ShmWriter::new");
-        writer.write(&ceb);
-        let map = RawMap::open(&path, 72);
-        let client = ClockBoundClient::new_with_path(path.to_str().unwrap()).expect("client");
-        ctx.client = Some(ClientCtx { _writer: writer, map, client, gen: 2 });
-    }
+    ensure_client(ctx, &ceb);
     let c = ctx.client.as_mut().unwrap();
     // store the record and move the generation to a fresh even value so the reader re-reads
     unsafe { (c.map.base.add(OFF_RECORD) as *mut ClockErrorBound).write_volatile(ceb) };
